@@ -9,8 +9,6 @@ VERIF = os.path.dirname(os.path.dirname(os.path.abspath(__file__)))
 sys.path.insert(0, VERIF)
 
 NA = {
-    'C03': 'machine-checked proof cannot apply: the statement is an empirical band on the fixed point of a '
-           'floating-point heuristic search; no model smaller than refine expresses it (DESIGN.md section 7)',
     'C18': 'machine-checked proof cannot apply: a Lean model is a total function and reproducible by construction; '
            'dependence on heap contents, ASLR or message timing cannot be expressed in it (DESIGN.md section 7)',
 }
